@@ -20,6 +20,9 @@ pub struct Send {
 
 #[derive(Debug, Clone, Serialize, Deserialize)]
 pub struct Scenario {
+    /// serve on the IPv6 loopback
+    #[serde(default)]
+    pub ipv6: bool,
     pub seed: Hex,
     pub batch_size: u8,
     pub fault: u8,
@@ -78,7 +81,7 @@ fn c02_scenario(fault: bool) -> impl Strategy<Value = Scenario> {
         prop_oneof![2 => 1usize..=8, 3 => 1usize..=70, 1 => 64usize..=130],
     );
     (seed32(), batch_size_strategy(), if fault { (1u8..=50).boxed() } else { Just(0u8).boxed() }, proptest::collection::vec(step, 1..=6))
-        .prop_map(|(seed, batch_size, fault, steps)| Scenario { seed, batch_size, fault, stats: false, steps })
+        .prop_map(|(seed, batch_size, fault, steps)| Scenario { ipv6: false, seed, batch_size, fault, stats: false, steps })
 }
 
 /// one-to-one matching of the replies on one socket to that socket's own requests under verify_strict
@@ -229,7 +232,7 @@ fn c02_fault_step(ctx: &mut Ctx, lab: &Lab, o: &StepObs, tally: &mut (u64, u64))
 
 fn c07_scenario() -> impl Strategy<Value = Scenario> {
     let step = vec_of((0u8..32, any_dgram()).prop_map(|(sock, d)| Send { sock, d }).boxed(), prop_oneof![3 => 1usize..=12, 2 => 1usize..=70]);
-    (seed32(), batch_size_strategy(), proptest::collection::vec(step, 1..=3)).prop_map(|(seed, batch_size, steps)| Scenario { seed, batch_size, fault: 0, stats: false, steps })
+    (seed32(), batch_size_strategy(), proptest::collection::vec(step, 1..=3)).prop_map(|(seed, batch_size, steps)| Scenario { ipv6: false, seed, batch_size, fault: 0, stats: false, steps })
 }
 
 fn len_class(l: usize) -> &'static str {
@@ -335,7 +338,7 @@ fn c08_scenario() -> impl Strategy<Value = Scenario> {
         })
     });
     (seed32(), batch_size_strategy(), prop_oneof![2 => Just(0u8), 1 => 1u8..=50], prop::bool::weighted(0.06), proptest::collection::vec(step, 1..=4))
-        .prop_map(|(seed, batch_size, fault, stats, steps)| Scenario { seed, batch_size, fault, stats, steps })
+        .prop_map(|(seed, batch_size, fault, stats, steps)| Scenario { ipv6: false, seed, batch_size, fault, stats, steps })
 }
 
 // ------------------------------------------------------------------------------------------------
@@ -356,7 +359,7 @@ fn c09_scenario() -> impl Strategy<Value = Scenario> {
     let nsock = 2u8..=48;
     (seed32(), batch_size_strategy(), nsock).prop_flat_map(move |(seed, batch_size, nsock)| {
         let step = vec_of((0..nsock, req.clone()).prop_map(|(sock, d)| Send { sock, d }).boxed(), prop_oneof![2 => 1usize..=6, 3 => 2usize..=70, 1 => 60usize..=130]);
-        (Just(seed), Just(batch_size), proptest::collection::vec(step, 1..=4)).prop_map(|(seed, batch_size, steps)| Scenario { seed, batch_size, fault: 0, stats: false, steps })
+        (Just(seed), Just(batch_size), proptest::collection::vec(step, 1..=4), prop::bool::weighted(0.25)).prop_map(|(seed, batch_size, steps, ipv6)| Scenario { ipv6, seed, batch_size, fault: 0, stats: false, steps })
     })
 }
 
@@ -431,7 +434,10 @@ fn c09_step(ctx: &mut Ctx, lab: &Lab, o: &StepObs) -> Res {
 // ------------------------------------------------------------------------------------------------
 
 pub fn run_scenario(ctx: &mut Ctx, which: Which, sc: &Scenario) -> Res {
-    let cfg = LabCfg { seed: sc.seed.0.clone(), batch_size: sc.batch_size, fault: sc.fault, client_stats: sc.stats, ..Default::default() };
+    let cfg = LabCfg { seed: sc.seed.0.clone(), batch_size: sc.batch_size, fault: sc.fault, client_stats: sc.stats, ipv6: sc.ipv6 && ipv6_available(), ..Default::default() };
+    if sc.ipv6 {
+        ctx.class(if cfg.ipv6 { "ipv6-loopback" } else { "ipv6-unavailable" });
+    }
     let nsocks = 48;
     let mut lab = match Lab::new(cfg, nsocks) {
         Ok(l) => l,
@@ -594,7 +600,7 @@ pub fn run(which: Which, ctx: &mut Ctx) -> Vec<Violation> {
                         let nonce = Hex(crate::refcrypto::sha512(&[b"grid", &[b], &(j as u32).to_le_bytes()])[..n].to_vec());
                         step.push(Send { sock: (j % 48) as u8, d: Dgram::Std(StdReq { ietf, words: 256 + (j as u16 * 7) % 120, nonce, srv: SrvOpt::Absent, vers: if ietf { vec![VER_DRAFT13] } else { vec![] } }) });
                     }
-                    Scenario { seed: Hex(vec![b; 32]), batch_size: b, fault: 0, stats: false, steps: vec![step.clone(), step] }
+                    Scenario { ipv6: false, seed: Hex(vec![b; 32]), batch_size: b, fault: 0, stats: false, steps: vec![step.clone(), step] }
                 },
                 |ctx, sc| run_scenario(ctx, Which::C02, sc),
             );
@@ -639,7 +645,7 @@ pub fn run(which: Which, ctx: &mut Ctx) -> Vec<Violation> {
                         let nonce = Hex(crate::refcrypto::sha512(&[b"nl", &(j as u32).to_le_bytes()])[..n].to_vec());
                         step.push(Send { sock: (j % 47 + 1) as u8, d: Dgram::Std(StdReq { ietf, words: 256, nonce, srv: SrvOpt::Absent, vers: if ietf { vec![VER_DRAFT13] } else { vec![] } }) });
                     }
-                    Scenario { seed: Hex(vec![3; 32]), batch_size: 64, fault: 0, stats: false, steps: vec![step] }
+                    Scenario { ipv6: false, seed: Hex(vec![3; 32]), batch_size: 64, fault: 0, stats: false, steps: vec![step] }
                 },
                 |ctx, sc| run_scenario(ctx, Which::C07, sc),
             );
